@@ -50,3 +50,20 @@ Definition fw_pure (c : config) (sigs : list signal) (ts : list Q) : signal :=
 
 Definition all_pure (c : config) (sigs : list signal) : list signal :=
   map (fun s => fw_pure c sigs (s_times s)) sigs.
+
+(* ---------------------------------------------------------------- front ends with memory *)
+(* sum_m taps[m] * f m *)
+Fixpoint dot (taps : list Q) (f : nat -> Q) : Q :=
+  match taps with
+  | [] => 0
+  | c :: taps' => c * f 0%nat + dot taps' (fun m => f (S m))
+  end.
+
+(* the FIR front end applied to an input u defined at ALL times (the infinite grid of step dt through t),
+   read off at time t: sum_m taps[m] * u(t - m*dt) *)
+Definition fir_response (taps : list Q) (u : Q -> Q) (dt t : Q) : Q :=
+  dot taps (fun m => u (t - nat_Q m * dt)).
+
+(* a uniformly sampled window: times[j] = times[0] + j*(times[1]-times[0]) *)
+Definition uniform (ts : list Q) : Prop :=
+  forall j, (j < length ts)%nat -> nth j ts 0 == t_first ts + nat_Q j * (t_second ts - t_first ts).
